@@ -26,8 +26,10 @@ class UFunc:
     def __init__(self, name, nargs):
         self.name, self.nargs = name, nargs
 
-    def __call__(self, *args):
+    def __call__(self, *args, **kw):
         from symx import core
+        # keyword arguments follow the positional ones in name order: f(p, q=x) is f(p, x)
+        args = list(args) + [kw[k] for k in sorted(kw)]
         return core.cur().func(self.name, self.nargs)(*args)
 
     def __reduce__(self):
